@@ -214,13 +214,13 @@ PROPS['C19'] = dict(
 )
 KANI = dict(module='vx.kanieng', tier='thorough')
 PROPS['C03']['engines'] = [KANI, dict(module='vx.boundeng')]
-PROPS['C18']['engines'] = [dict(module='gvc.engine', args=dict(analyses=('pptotal', 'lexers', 'assumed'))), REPLAY]
+PROPS['C18']['engines'] = [dict(module='gvc.engine', args=dict(analyses=('pptotal', 'assumed'))), REPLAY]
 PROPS['C05']['engines'] = [dict(module='vx.boundeng'), dict(module='gvc.engine', args=dict(analyses=('shadow', 'kwsites', 'assumed')))]
 PROPS['C11']['engines'] = [dict(module='gvc.engine', args=dict(analyses=('shadow', 'kwsites', 'assumed')))]
 PROPS['C10']['engines'] = [dict(module='gvc.engine', args=dict(analyses=('assumed',)))]
 PROPS['C09']['engines'] = [dict(module='gvc.engine', args=dict(analyses=('assumed',)))]
 PROPS['C04']['engines'] = [dict(module='gvc.engine', args=dict(analyses=('frame', 'assumed', 'kwsites', 'pptotal'))), REPLAY]
-PROPS['C06']['engines'] = [dict(module='gvc.engine', args=dict(analyses=('pptotal', 'lexers', 'faithful', 'shadow', 'assumed'))), dict(module='vx.boundeng'), REPLAY]
+PROPS['C06']['engines'] = [dict(module='gvc.engine', args=dict(analyses=('pptotal', 'faithful', 'shadow', 'assumed'))), dict(module='vx.boundeng'), REPLAY]
 
 # ---- premise closure -----------------------------------------------------------------------------------------------------
 # Verification is modular: a unit verifies its functions against the CONTRACTS of their callees.  Those contracts are proved in
